@@ -26,10 +26,10 @@ for pid in sorted(CHECKS):
     c = CHECKS[pid]
     m["checks"].append({
         "property_id": pid,
-        "quick_cmd": f"./check {pid} --tier quick",
-        "thorough_cmd": f"./check {pid} --tier thorough",
+        "quick_cmd": f"cd /verif && ./check {pid} --tier quick",
+        "thorough_cmd": f"cd /verif && ./check {pid} --tier thorough",
         "evidence_file": f"/verif/evidence/{pid}.json",
-        "replay_cmd_template": f"./check {pid} --replay {{path}}",
+        "replay_cmd_template": f"cd /verif && ./check {pid} --replay {{path}}",
         "engine": "coq-models",
         "level_claimed": {"category": c.get("category", "proof"), "text": c["text"], "design_ref": c.get("design_ref", f"DESIGN.md sections 5 (plan) and 10.3 (as built) {pid}")},
         "level_note": c["note"],
